@@ -135,7 +135,7 @@ func checkC14(c *Ctx) {
 				eng.EachInstr(fn, func(in ssa.Instruction) {
 					if call, ok := in.(*ssa.Call); ok {
 						cc := call.Common()
-						if eng.IsCallTo(cc, getMsg) || eng.IsCallTo(cc, srcRd) || eng.IsCallTo(cc, markSeen) || eng.IsCallTo(cc, rmMsg) {
+						if eng.IsCallTo(cc, getMsg) || eng.IsCallTo(cc, srcRd) || eng.IsCallTo(cc, markSeen) || eng.IsCallTo(cc, rmMsg) || c.mgrOpThroughValue(call, markSeen, rmMsg) != nil {
 							calls = true
 						}
 					}
@@ -203,7 +203,7 @@ func checkC14(c *Ctx) {
 			for _, prev := range ps.Trace {
 				if call, ok := prev.(*ssa.Call); ok {
 					cc := call.Common()
-					if eng.IsCallTo(cc, getMsg) || eng.IsCallTo(cc, srcRd) || eng.IsCallTo(cc, markSeen) || eng.IsCallTo(cc, rmMsg) {
+					if eng.IsCallTo(cc, getMsg) || eng.IsCallTo(cc, srcRd) || eng.IsCallTo(cc, markSeen) || eng.IsCallTo(cc, rmMsg) || c.mgrOpThroughValue(call, markSeen, rmMsg) != nil {
 						mc = call
 					}
 				}
@@ -555,6 +555,19 @@ func (c *Ctx) c14Name(handlers []*ssa.Function, mgr *types.Named, mbfa *types.Fu
 		}
 		eng.EachCallDeep(H, func(fn *ssa.Function, ci ssa.CallInstruction) {
 			cc := ci.Common()
+			// a Manager operation handed over as a method value and called through it
+			// (applyMessageOpV1(w, req, "MarkSeen", ctx.Manager.MarkSeen, name, id) → op(mailbox, id))
+			if call, isCall := ci.(*ssa.Call); isCall && !cc.IsInvoke() && len(cc.Args) > 0 {
+				if o := c.mgrOpThroughValue(call, mgrOps(mi)...); o != nil && o.Name() != "MailboxForAddress" && o.Name() != "Deliver" {
+					n++
+					if c.flowsFromCallP(cc.Args[0], mbfa) {
+						r.Ok("C14/NAME", shortFn(H)+":"+o.Name(), p.InstrPos(ci), "mailbox argument is the result of MailboxForAddress")
+					} else {
+						r.Bad("C14/NAME", shortFn(H)+":"+o.Name(), p.InstrPos(ci), "mailbox argument of Manager.%s (called through a method value) does not come from Manager.MailboxForAddress: this handler addresses a different mailbox than the one delivery used", o.Name())
+					}
+					return
+				}
+			}
 			if !cc.IsInvoke() || !types.Identical(cc.Value.Type(), mgr) {
 				return
 			}
@@ -1479,4 +1492,58 @@ func structFieldValues(rv ssa.Value, field int) (vals []ssa.Value, zero bool) {
 		return nil, true // messageRef{} : nothing stored
 	}
 	return vals, false
+}
+
+// mgrOps lists the methods of the Manager interface.
+func mgrOps(mi *types.Interface) []*types.Func {
+	var out []*types.Func
+	for i := 0; i < mi.NumMethods(); i++ {
+		out = append(out, mi.Method(i))
+	}
+	return out
+}
+
+// mgrOpThroughValue: call invokes, through a function-typed parameter, a method value of the
+// Manager interface (one of ops) at every call site of the enclosing function; the method (of
+// the first site) is returned, nil otherwise.
+func (c *Ctx) mgrOpThroughValue(call *ssa.Call, ops ...*types.Func) *types.Func {
+	cc := call.Common()
+	prm, ok := cc.Value.(*ssa.Parameter)
+	if !ok || cc.IsInvoke() {
+		return nil
+	}
+	vals, known := c.P.ActualsOf(prm)
+	if !known || len(vals) == 0 {
+		return nil
+	}
+	var found *types.Func
+	for _, v := range vals {
+		mc, ok := eng.StripConv(v).(*ssa.MakeClosure)
+		if !ok {
+			return nil
+		}
+		w, ok := mc.Fn.(*ssa.Function)
+		if !ok || w.Synthetic == "" || len(w.Blocks) != 1 {
+			return nil
+		}
+		var m *types.Func
+		for _, in := range w.Blocks[0].Instrs {
+			c2, ok := in.(*ssa.Call)
+			if !ok || !c2.Call.IsInvoke() {
+				continue
+			}
+			for _, o := range ops {
+				if c2.Call.Method == o || c2.Call.Method.Name() == o.Name() && eng.IsCallTo(c2.Common(), o) {
+					m = o
+				}
+			}
+		}
+		if m == nil {
+			return nil
+		}
+		if found == nil {
+			found = m
+		}
+	}
+	return found
 }
